@@ -136,8 +136,9 @@ class Run:
             cov.setdefault("disagreements_checked", self.counters.get("comparisons", 0))
         ev = dict(property_id=self.prop, tier=self.tier, seed=self.seed, level=self.level, coverage=cov,
                   assumptions=self.assumptions, wall_s=round(time.time() - self.t0, 2), violations=len(unknown))
-        os.makedirs(os.path.join(VERIF, "evidence"), exist_ok=True)
-        with open(os.path.join(VERIF, "evidence", self.prop + ".json"), "w") as f:
+        outroot = os.environ.get("VERIF_OUT", VERIF)     # mutant self-tests write their evidence/replays elsewhere
+        os.makedirs(os.path.join(outroot, "evidence"), exist_ok=True)
+        with open(os.path.join(outroot, "evidence", self.prop + ".json"), "w") as f:
             json.dump(ev, f, indent=1, sort_keys=True)
             f.write("\n")
         for key, vs in sorted(matched.items()):
@@ -147,7 +148,7 @@ class Run:
             self.prop, "observed", self.tier, self.seed, self.evaluations, len(self.cells), time.time() - self.t0,
             json.dumps(dict(sorted(self.counters.items())))))
         if unknown:
-            rdir = os.path.join(VERIF, "replay", self.prop)
+            rdir = os.path.join(outroot, "replay", self.prop)
             os.makedirs(rdir, exist_ok=True)
             seen = {}
             for v in unknown:
